@@ -508,6 +508,21 @@ def gen_case(rng, simple=False, n_tasks=None, allow_app_slots=True,
                 t['raptor_id'] = rng.choice(['raptor.0', 'raptor.0', '*'])
                 if rng.random() < 0.25:
                     t['raptor_seen'] = True
+    if not simple and n >= 2 and rng.random() < 0.15:
+        # a family of colocated MPI tasks: the same tag on two to four tasks
+        # of several ranks each, with a per-node rank limit - later members
+        # are placed from the tag's node history
+        fam = [t for t in tasks if not t.get('app_slots')
+                                   and not t.get('raptor_id')
+                                   and t['ranks'] > 0]
+        fam = fam[:rng.randint(2, 4)]
+        tag = rng.choice(['fam', 7])
+        rpn = rng.choice([1, 1, 2])
+        for t in fam:
+            t.update({'tags': {'colocate': tag}, 'named_env': '',
+                      'ranks': rng.randint(2, 4), 'cores_per_rank': 1,
+                      'gpus_per_rank': 0., 'lfs_per_rank': 0,
+                      'mem_per_rank': 0, 'ranks_per_node': rpn})
     return {'layout'      : lay,
             'raptor'      : raptor,
             'scheduler'   : 'CONTINUOUS',
